@@ -14,6 +14,7 @@ CHECKS = {
     "C09": {"harnesses": [("harness.sessions", "C09_SessionRules")]},
     "C10": {"harnesses": [("harness.runs", "C10_RunnerBasics")]},
     "C11": {"harnesses": [("harness.runs", "C11_RunnerBasics")]},
+    "C12": {"harnesses": [("harness.fundamentals", "C12_LogReturns"), ("harness.fundamentals", "C12_Paths")]},
     "C13": {"harnesses": [("harness.events", "C13_HookDispatch"), ("harness.events", "C13_HookValidation")]},
     "C14": {"harnesses": [("harness.events", "C14_FundamentalShock"), ("harness.events", "C14_MistakeShock")]},
     "C15": {"harnesses": [("harness.events", "C15_LimitRuleFn"), ("harness.events", "C15_LimitRuleRun")]},
@@ -41,6 +42,5 @@ META = {pid: {"level": _L, "note": _N} for pid in ["C%02d" % i for i in range(1,
 NOT_APPLICABLE = {
     "C06": "harness not built yet in this revision (planned: RN clock/series monitor)",
     "C07": "harness not built yet in this revision (planned: two-run comparison under nondeterministic global sources)",
-    "C12": "harness not built yet in this revision",
     "C20": "harness not built yet in this revision",
 }
